@@ -238,3 +238,4 @@ theorem fastMarks_spec (wf : Op → Nat) (its : List Item) (hnd : (beginIds its)
   · intro h2; exact ⟨getMarksGo_ne_null wf its {} i 0 h2, by rw [h.seq]; exact hi, h2⟩
 
 end AmVerif.Crdt
+
